@@ -146,9 +146,12 @@ DeserializationError feed(int kind, const std::string& bytes, Call&& call, Count
       return call(*r);
     }
     case K_VARIANT: {
+      // linked string: not subject to the configured maximum string length; exact block for ASan
       JsonDocument holder;
       std::string z = cut_at_nul(bytes);
-      holder.set(z);  // copied string
+      z.push_back('\0');
+      ExactBuf b(z);
+      holder.set(static_cast<const char*>(b.p));
       return call(holder.as<JsonVariantConst>());
     }
   }
